@@ -11,7 +11,10 @@
    copies leave in the frame's payload area (`tile`).  The definitions named *_asis mirror the loops of
    the repository before fixes/C18-bulk.diff, the others the repaired loops.
    Definitions only. *)
-Require Import V.Base.MachineInt V.Generated.GenConsts V.Model.Descriptor V.Model.LogBase.
+Require Import V.Base.MachineInt.
+Require Import V.Generated.GenConsts.
+Require Import V.Model.Descriptor.
+Require Import V.Model.LogBase.
 Open Scope Z_scope.
 
 Notation "' p <- e ;; k" := (bind e (fun p => k)) (at level 61, p pattern, e at next level, right associativity).
